@@ -86,6 +86,36 @@ Theorem C19_mgh_lowdim_refuted :
 Proof. exact shape_padded_refuted. Qed.
 Print Assumptions C19_mgh_lowdim_refuted.
 
+(* saving onto a file that the array being saved is memory-mapped from.  A buffer is in memory
+   or a map of (file, offset, length) whose value is what the file holds when it is read; the writer
+   opens the target 'wb' (truncating it) before it reads the array.  Under the contract of
+   unmap_if_target - copy every array that aliases the target first - the target afterwards decodes
+   to header m and exactly the value the array had before the save, and no other file changes;
+   MGHImage.to_file_map's decision (copy iff the array is a map of the target) meets the contract *)
+Theorem C19_mgh_save_onto_mapped_file : forall fs target m buf copies value,
+  wf_mgh m value -> buf_read fs buf = Ok value ->
+  (aliases buf target = true -> copies = true) ->
+  exists fs', mgh_save fs target m buf copies = Ok fs'
+    /\ fs_get fs' target = Some (mgh_write m value)
+    /\ (forall f, fs_get fs' target = Some f -> mgh_read f = Ok (m, value))
+    /\ (forall n, n <> target -> fs_get fs' n = fs_get fs n).
+Proof. exact mgh_save_contract. Qed.
+Print Assumptions C19_mgh_save_onto_mapped_file.
+
+Theorem C19_mgh_save_unmap_if_target : forall fs target m buf value,
+  wf_mgh m value -> buf_read fs buf = Ok value ->
+  exists fs', mgh_save fs target m buf (unmap_if_target_decision buf target) = Ok fs'
+    /\ (forall f, fs_get fs' target = Some f -> mgh_read f = Ok (m, value)).
+Proof. exact mgh_save_unmap. Qed.
+Print Assumptions C19_mgh_save_unmap_if_target.
+
+(* a writer that skips the copy for a map of the target's data region reads it after the truncation *)
+Theorem C19_mgh_save_without_copy_refuted : forall fs target m len,
+  0 < len -> zlen (hdr_bytes m) <= DATA_OFFSET ->
+  mgh_save fs target m (Mapped target DATA_OFFSET len) false = Err ErrAlias.
+Proof. exact mgh_save_alias_refuted. Qed.
+Print Assumptions C19_mgh_save_without_copy_refuted.
+
 (* non-vacuity: concrete inputs (a uint8 colour table) meet the hypotheses of the annotation and
    volume-info theorems *)
 Example C19_nonvacuous :
